@@ -16,4 +16,8 @@ ENTRIES = [
     ("c04_pipe_aggr_hi_add", "src/protocol/request_list.cc", r"else\s*return rate / 10 \+ (\d+);", "N"),
     ("c04_timeout_remove_choked_s", "src/protocol/request_list.h", r"timeout_remove_choked\{(\d+)s\}", "N"),
     ("c04_timeout_process_unordered_s", "src/protocol/request_list.h", r"timeout_process_unordered\{(\d+)s\}", "N"),
+    # RequestList::choked early return: 1 iff it also requires the stalled bucket to be empty (0 in the code as first modelled)
+    ("c04_choked_checks_stalled", "src/protocol/request_list.cc",
+     r"if \(m_queues\.queue_empty\(bucket_queued\) && m_queues\.queue_empty\(bucket_unordered\)( && m_queues\.queue_empty\(bucket_stalled\))?\)\s*return;",
+     "N", lambda m: 1 if m.group(1) else 0),
 ]
